@@ -578,7 +578,7 @@ func main() {
 			}
 			term := "KNone"
 			if pm == "" && finite(rdata) {
-				term = fmt.Sprintf("KPrint %s %s %s %s %s %s %s %s", cq.Floats(d), hexs(sStr), hexs(sSvg), hexs(sPdf), hexs(sPs), cq.Z(int64(rr.class)), cq.Floats(rdata), cq.List(cs))
+				term = fmt.Sprintf("KPrint %s %s %s %s %s %s %s %s %s", cq.Floats(d), hexs(sStr), hexs(sSvg), hexs(sPdf), hexs(sPs), cq.Z(int64(rr.class)), cq.Floats(rdata), cq.List(cs), arcOracle(rdata))
 			}
 			o.Emit(out.Case{I: i, Fam: fam, Coq: term, Desc: desc})
 		default: // ParseSVG on mutated documents: Go side only
